@@ -15,4 +15,5 @@ export CARGO_NET_OFFLINE=true
 export RUSTFLAGS="--cfg bigtools_verif"
 ( cd sim && CARGO_TARGET_DIR="$VERIF_TARGET" cargo build --release --offline --bins )
 ( export RUSTFLAGS="--cfg bigtools_verif --cfg bigtools_verif_shuttle"; cd tfbshuttle && CARGO_TARGET_DIR="$VERIF_ROOT/target-shuttle$SFX" cargo build --release --offline )
+( export RUSTFLAGS="--cfg bigtools_verif"; cd .repo && CARGO_TARGET_DIR="$VERIF_TARGET" cargo build --offline -p bigtools --bin bigtools )
 echo "setup ok"
